@@ -1032,6 +1032,9 @@ class Interp:
                                 s3.env[dk] = replace(recv, val=(tuple(sorted(sl2.items(), key=lambda kv: str(kv[0]))), recv.val[1]))
                                 out.append((s3, pos[1]))
                         continue
+                if len(pos) == 2 and not kw and ast.unparse(f) in ("typing.cast", "cast") and (self.m.resolve_name(self.module, f) or "").endswith("typing.cast"):
+                    out.append((s2, pos[1]))  # typing.cast(T, x) is x
+                    continue
                 res = self.rule.call(self, s2, node, recv, pos, kw)
                 if res is None:
                     res = self.default_call(s2, node, recv, pos, kw)
@@ -1288,7 +1291,10 @@ class Interp:
                 else:
                     self.assign(st, t, AV("unk", sym=self.rule.term("idx", av.sym, str(-(n - i)))))
         elif isinstance(target, (ast.Tuple, ast.List)):
-            if av.kind == "tuple" and len(av.val) == len(target.elts):
+            custom = self.rule.unpack(self, st, av, len(target.elts))
+            if custom is not None and len(custom) == len(target.elts):
+                parts = custom
+            elif av.kind == "tuple" and len(av.val) == len(target.elts):
                 parts = av.val
             elif self.rule.wants_subscript and av.sym and self._nt_fields(av.sym, len(target.elts)):
                 # a, b = f(...) where f returns a NamedTuple: the elements are its fields (same terms as attribute access)
@@ -1798,6 +1804,11 @@ class BaseRule:
 
     def loop_break(self, it, stmt, st):
         pass
+
+    def unpack(self, it, st, av, n):
+        """a, b = <value>: the n element values when the rule knows the structure of the value (e.g. a NamedTuple result it models
+        as one object), else None"""
+        return None
 
     def loop_enter(self, it, stmt, st):
         """called at the head of a `while` loop for each state reaching it; False abandons the path (bounded unrolling)"""
